@@ -389,9 +389,11 @@ def stream_too_little(env, rng, counts):
     raise cf
 
 
-def stream_integrate(env, rng, counts):
-    """Integrate(g, x, {x}) and Integrate(g, h, reals) vs mean / Matrix-Cookbook-380 closed forms."""
-    kind = rng.choice(["var", "gauss", "gauss"])
+def stream_integrate(env, rng, counts, force=None):
+    """Integrate(g, x, {x}) and Integrate(g, h, reals) vs mean / Matrix-Cookbook-380 closed forms.
+    `force` (grid stream): dict(measure=square|wide|factor-sum, shape=+a|-a|a-b, a=…, b=…)."""
+    force = force or {}
+    kind = "gauss" if force else rng.choice(["var", "gauss", "gauss"])
     if kind == "var":
         shape = rng.choice(SHAPES)
         nb = rng.choice([0, 1, 1, 2])
@@ -446,7 +448,9 @@ def stream_integrate(env, rng, counts):
         counts("integrate:variable")
         return ("integrate-var", str(order), c.rank)
     # ---- Gaussian against Gaussian ---------------------------------------------------------------
-    c = gen_full_case(rng, want_rank=lambda dim, r: r.choice([dim, dim + 1, min(2 * dim, dim + 2)]), max_dim=5)
+    fm = force.get("measure")
+    c = gen_full_case(rng, want_rank=(lambda dim, r: dim) if fm == "square" else (lambda dim, r: dim + 1) if fm == "wide"
+                      else (lambda dim, r: r.choice([dim, dim + 1, min(2 * dim, dim + 2)])), max_dim=3 if force else 5)
     for _ in range(30):
         if c.block_ok([k for k, _ in c.layout]):
             break
@@ -457,7 +461,7 @@ def stream_integrate(env, rng, counts):
     hreals = [("r", k, c.shapes[k]) for k in names if rng.random() < 0.7] or [("r", names[0], c.shapes[names[0]])]
     hb = [("b", k, n) for k, n in c.batch.items() if rng.random() < 0.6]
     free = [b for b in BATCH_NAMES if b not in c.batch]
-    if free and rng.random() < 0.3:
+    if free and rng.random() < 0.3 and not force:
         hb.append(("b", free[0], 2))
     horder = hreals + hb
     rng.shuffle(horder)
@@ -466,7 +470,7 @@ def stream_integrate(env, rng, counts):
     h2 = Case(rng, horder, rng.choice(list(range(0, 2 * hdim + 1))))
     g = c.build()
     factor_sum = False
-    if rng.random() < 0.45:
+    if (fm == "factor-sum") or (fm is None and rng.random() < 0.45):
         # measure built as a SUM OF FACTORS q1(all inputs) + q2(some inputs): rank in (dim, 2 dim], not compressed
         sub = [o for o in c.order if rng.random() < (0.7 if o[0] == "b" else 0.6)]
         if not any(o[0] == "r" for o in sub):
@@ -488,19 +492,36 @@ def stream_integrate(env, rng, counts):
     hg = h.build()
     # integrand: h, -h, h - h2 (distribute / neg rules), and the ELBO patterns h - q with q the measure OBJECT itself,
     # an equal but distinct copy of it, q - h, and q alone
-    ikind = rng.choice(["h", "h", "neg", "diff", "p-q", "p-q", "p-q-copy", "q-p", "q"])
+    # The integrand is a signed combination of 1-2 terms; each term is independently the measure OBJECT q itself, an
+    # equal-but-distinct copy of it, or another Gaussian (h, h2) — crossed with square / wide / factor-sum measures.
+    h2g = h2.build()
+    gcopy = Gaussian(np.array(c.w), np.array(c.P), c.inputs)
+    sources = {"q": g, "qcopy": gcopy, "h": hg, "h2": h2g}
+    pick = lambda: rng.choice(["q", "q", "qcopy", "h", "h", "h2"])
+    shape_ = force.get("shape") or rng.choice(["+a", "+a", "-a", "-a", "a-b", "a-b", "a-b"])
+    a_src = force.get("a") or pick()
+    b_src = force.get("b") or pick()
+    if shape_ == "a-b" and b_src == a_src and a_src in ("h", "h2"):
+        b_src = "q"
+    terms = {"+a": [(1, a_src)], "-a": [(-1, a_src)], "a-b": [(1, a_src), (-1, b_src)]}[shape_]
+    ikind = shape_.replace("a", a_src).replace("b", b_src)
     mkind = rng.choice(["gaussian", "gaussian", "mixture"])  # measure: g or t + g (eager_integrate_gaussianmixture)
     route = rng.choice(["Integrate", "Integrate", "exp-mul-reduce"])   # (g.exp() * h).reduce(add, reals)
-    if ikind == "p-q" and mkind == "gaussian" and rng.random() < 0.4:
+    if force:
+        mkind, route = "gaussian", "Integrate"
+    if ikind == "h-q" and mkind == "gaussian" and rng.random() < 0.5:
         route = "elbo"                                         # funsor.elbo.Elbo(guide, vars): model.reduce(logaddexp)
-    gcopy = Gaussian(np.array(c.w), np.array(c.P), c.inputs)
-    integ = {"h": lambda: hg, "neg": lambda: -hg, "diff": lambda: hg - h2.build(), "p-q": lambda: hg - g,
-             "p-q-copy": lambda: hg - gcopy, "q-p": lambda: g - hg, "q": lambda: g}[ikind]()
+    if shape_ == "+a":
+        integ = sources[a_src]
+    elif shape_ == "-a":
+        integ = -sources[a_src]
+    else:
+        integ = sources[a_src] - sources[b_src]
     tb = [(k, n) for k, n in c.batch.items() if rng.random() < 0.7] if mkind == "mixture" else []
     tdata = dy_array(rng, tuple(n for _, n in tb), pool=[-1, -0.5, 0, 0.5, 1])
     meas = (Tensor(tdata, OrderedDict((k, Bint[n]) for k, n in tb)) + g) if mkind == "mixture" else g
     hist = [dict(op="gaussian", **c.describe()),
-            dict(op="integrate-gaussian", integrand=h.describe(), integrand2=h2.describe() if ikind == "diff" else None,
+            dict(op="integrate-gaussian", integrand=h.describe(), integrand2=h2.describe(), terms=terms,
                  integrand_kind=ikind, measure=mkind, tensor=dict(inputs=tb, data=tdata.tolist()), route=route,
                  measure_is_sum_of_factors=factor_sum, measure_rank=c.rank, measure_dim=c.dim)]
     rv = frozenset(Variable(k, dom(c.shapes[k])) for k in names)
@@ -521,7 +542,7 @@ def stream_integrate(env, rng, counts):
     try:
         # an integrand with a batch input the measure lacks is declined (AssertionError in align without
         # expand): not a question of input order, so it is outside the completion clause
-        must = set(h.batch) <= set(c.batch) and (ikind, mkind, route) == ("h", "gaussian", "Integrate")
+        must = set(h.batch) <= set(c.batch) and (ikind, mkind, route) == ("+h", "gaussian", "Integrate")
 
         def run():
             if route == "Integrate":
@@ -552,17 +573,14 @@ def stream_integrate(env, rng, counts):
                 norm *= math.exp(float(tdata[tuple(p[k] for k, _ in tb)]))
             # E[h(x)], x ~ N(mean, inv): h(x) = -1/2 x'Hx + x'e + ch  (h embedded into g's layout)
             expect, hw, hP = expect_of(h, p, mean, inv)
-            total = {"h": expect, "neg": -expect}.get(ikind)
-            if ikind == "diff":
-                total = expect - expect_of(h2, p, mean, inv)[0]
-            elif ikind in ("p-q", "p-q-copy", "q-p", "q"):
-                eq = expect_of(c, p, mean, inv)[0]          # E_q[q] from q's own dense parameters
-                total = {"p-q": expect - eq, "p-q-copy": expect - eq, "q-p": eq - expect, "q": eq}[ikind]
+            esrc = {"h": expect, "h2": expect_of(h2, p, mean, inv)[0]}
+            esrc["q"] = esrc["qcopy"] = expect_of(c, p, mean, inv)[0]       # E_q[q] from q's own dense parameters
+            total = sum((sg * esrc[src] for sg, src in terms), F(0))
             want = float(total) * norm
             got = float(tab[idx])
             if not fclose(got, want, max(1.0, abs(want)), 1e-8):
                 raise CaseFail("C13.integrate-gaussian-ne-expectation", point=p, expected=str(want), got=str(got))
-            if (ikind, mkind) == ("h", "gaussian"):
+            if (ikind, mkind) == ("+h", "gaussian"):
                 # model request: h aligned to g's layout (zero rows for inputs h lacks)
                 hrow = {}
                 o = 0
@@ -572,6 +590,21 @@ def stream_integrate(env, rng, counts):
                     o += n
                 hal = [hrow.get((k, e), [F(0)] * len(hw)) for k, n in c.layout for e in range(n)]
                 reqs.append((f"C13 integrate {sx(g_sexp(c.layout, w, P))} {sx(g_sexp(c.layout, hw, hal))}", expect))
+        # cross-consistency: Integrate(q, -a) = -Integrate(q, a), Integrate(q, a - b) = Integrate(q, a) - Integrate(q, b)
+        if shape_ != "+a" and route == "Integrate":
+            try:
+                parts = [(sg, Integrate(meas, sources[src], rv)) for sg, src in terms]
+                if all(isinstance(pt, (Tensor, Number)) for _, pt in parts):
+                    tabs = [(sg, c12.table_of(pt, list(allb), allb)) for sg, pt in parts]
+                    for idx in itertools.product(*[range(s_) for s_ in allb.values()]):
+                        lin = sum(sg * float(tb_[idx]) for sg, tb_ in tabs)
+                        if not fclose(float(tab[idx]), lin, max(1.0, abs(lin)), 1e-8):
+                            raise CaseFail("C13.integrate-not-linear-in-integrand", point=dict(zip(allb, idx)),
+                                           expected=f"{lin} (signed sum of the integrals of the terms)",
+                                           got=str(float(tab[idx])))
+                    counts("integrate:linearity-ok")
+            except DECLINE_ERRORS:
+                counts("integrate:linearity-declined")
         if env.use_driver and reqs:
             for ans, (rq, expect) in zip(env.driver.ask([r[0] for r in reqs]), reqs):
                 if not ans.startswith("ok ") or ans.startswith("ok (") or F(ans[3:]) != expect:
@@ -1093,6 +1126,34 @@ def stream_contraction(env, rng, counts):
     return ("contraction", str(o1), str(o2), tuple(red_r + red_i), how)
 
 
+def integrate_grid(ctx, env):
+    """"h IS the measure" and "the measure is over-complete" as independent axes crossed with every integrand kind:
+    measures {square, wide, sum of factors} x integrands {+a, -a, a-b} x a, b in {q (the measure object), qcopy
+    (equal but distinct), h, h2}, each against the expectation closed form and the linearity / sign gate."""
+    n = 0
+    srcs = ["q", "qcopy", "h", "h2"]
+    combos = [("+a", a, None) for a in srcs] + [("-a", a, None) for a in srcs] + \
+             [("a-b", a, b) for a in srcs for b in srcs if not (a == b and a in ("h", "h2"))]
+    for measure in ("square", "wide", "factor-sum"):
+        for shape_, a, b in combos:
+            seed = ctx.rng.getrandbits(48)
+            force = dict(measure=measure, shape=shape_, a=a, b=b or "h")
+            try:
+                key = stream_integrate(env, random.Random(seed), ctx.count, force=force)
+            except Declined as e:
+                ctx.count(f"integrate-grid:declined:{e}")
+                continue
+            except CaseFail as cf:
+                cf.kw["witness"] = dict(case_seed=seed, stream="integrate-grid", force=force,
+                                        history=cf.kw.pop("witness_history", None))
+                report(ctx, cf)
+                continue
+            if key is not None:
+                n += 1
+                ctx.case(nontrivial_key=("integrate-grid", measure, shape_, a, b))
+    ctx.count("integrate-grid:cases", n)
+
+
 def _snapshot(f):
     """bitwise image of a result (for the history-independence gate)"""
     obs = Obs(f)
@@ -1249,6 +1310,18 @@ def replay_case(case_seed, stream=None):
     return False
 
 
+def replay_integrate_grid(case_seed, force):
+    env = Env(c12._Quiet(), use_driver=False)
+    try:
+        stream_integrate(env, random.Random(case_seed), lambda *a, **k: None, force=force)
+    except CaseFail as cf:
+        print("still fails:", cf.name)
+        return True
+    except Declined:
+        return False
+    return False
+
+
 def replay_plate_exhaustive(case_seed, order_raw, mixture):
     env = Env(c12._Quiet(), use_driver=False)
     order = [(o[0], o[1], tuple(o[2]) if o[0] == "r" else o[2]) for o in order_raw]
@@ -1271,6 +1344,8 @@ def replay(ctx, doc):
         return True
     if w.get("stream") == "plate-exhaustive":
         return replay_plate_exhaustive(w["case_seed"], w["order_raw"], w["mixture"])
+    if w.get("stream") == "integrate-grid":
+        return replay_integrate_grid(w["case_seed"], w["force"])
     return replay_case(w["case_seed"], "history" if w.get("stream") == "history" else None)
 
 
@@ -1279,7 +1354,10 @@ def report(ctx, cf):
     if cf.name in ("model-ne-spec",):
         ctx.infra_errors.append(f"Lean model disagrees with the oracle: {cf.kw} {w}")
         return
-    if w.get("stream") == "plate-exhaustive":
+    if w.get("stream") == "integrate-grid":
+        py = (f"import sys\nsys.path.insert(0, {str(VERIF)!r})\nfrom fv.harness import c13\n"
+              f"FAILS = c13.replay_integrate_grid({w['case_seed']}, {w['force']!r})\n")
+    elif w.get("stream") == "plate-exhaustive":
         py = (f"import sys\nsys.path.insert(0, {str(VERIF)!r})\nfrom fv.harness import c13\n"
               f"FAILS = c13.replay_plate_exhaustive({w['case_seed']}, {w['order_raw']!r}, {w['mixture']!r})\n")
     else:
@@ -1337,6 +1415,7 @@ def _correspond(ctx, use_driver=True, volume=None):
     if env.use_driver:
         inverse_stream(ctx, 80 if ctx.tier == "quick" else 800)
     plate_exhaustive(ctx, env)
+    integrate_grid(ctx, env)
     n = volume or (900 if ctx.tier == "quick" else 16000)
     for _ in range(n):
         seed = ctx.rng.getrandbits(48)
